@@ -286,6 +286,69 @@ fn search_chain(seed: u64, budget: usize) -> Option<Value> {
     None
 }
 
+// ---------------------------------------------------------------------------------------------
+// C13: IDL parser robustness: no panic; interface names follow the grammar
+fn legal_interface_name(n: &str) -> bool {
+    let segs: Vec<&str> = n.split('.').collect();
+    if segs.len() < 2 { return false; }
+    for (i, s) in segs.iter().enumerate() {
+        let b = s.as_bytes();
+        if b.is_empty() { return false; }
+        if i == 0 && !b[0].is_ascii_alphabetic() { return false; }
+        if !b[0].is_ascii_alphanumeric() || !b[b.len() - 1].is_ascii_alphanumeric() { return false; }
+        if !b.iter().all(|c| c.is_ascii_alphanumeric() || *c == b'-') { return false; }
+    }
+    true
+}
+fn run_idl(text: &str) -> Option<String> {
+    let t = text.to_string();
+    let r = std::panic::catch_unwind(move || {
+        match zlink_core::idl::Interface::try_from(t.as_str()) {
+            Ok(i) => Some(i.name().to_string()),
+            Err(_) => None,
+        }
+    });
+    match r {
+        Err(_) => Some("parser panicked".into()),
+        Ok(Some(name)) if !legal_interface_name(&name) => Some(format!("accepted with illegal interface name {name:?}")),
+        Ok(Some(_)) if text.contains("__") || text.contains("_:") || text.contains("_,") || text.contains("_)") =>
+            Some("accepted a text with a doubled or trailing underscore in a field name (grammar: [A-Za-z]([_]?[A-Za-z0-9])*)".into()),
+        _ => None,
+    }
+}
+fn search_idl(seed: u64, budget: usize) -> Option<Value> {
+    std::panic::set_hook(Box::new(|_| {}));
+    let mut rng = Rng(seed.wrapping_mul(0x9E3779B97F4A7C15) | 1);
+    // legal names must be accepted and returned unchanged
+    for n in ["org.example.test", "a.b", "a-b.c-d", "x.1y", "com.3com.net", "org.example.2fa", "io.systemd.v1.0", "a--b.c", "A.B9", "a.0"] {
+        let t = format!("interface {n}\n\nmethod Get(id: int) -> (ok: bool)\n");
+        let t2 = t.clone();
+        let r = std::panic::catch_unwind(move || zlink_core::idl::Interface::try_from(t2.as_str()).map(|i| i.name().to_string()).map_err(|e| e.to_string()));
+        match r {
+            Ok(Ok(name)) if name == n => {}
+            Ok(other) => return Some(json!({"kind":"idl_legal","text":t,"name":n,"why":format!("legal interface text rejected or mis-named: {other:?}")})),
+            Err(_) => return Some(json!({"kind":"idl_legal","text":t,"name":n,"why":"parser panicked"})),
+        }
+    }
+    let names = ["org.example.test", "a.b", "org.example.", "a-b.c-d", "a.b.", "x.y-", "x.1y", "com.3com.net"];
+    let types = ["int", "?string", "[]bool", "[string]int", "(a: int)", "(x, y)", "", ")", "(", "(a:)", "( )", "Foo", "(a: (b: int))"];
+    for _ in 0..budget {
+        let mut t = format!("interface {}\n", names[rng.below(names.len())]);
+        for _ in 0..rng.below(3) {
+            match rng.below(3) {
+                0 => t.push_str(&format!("method M{}(a: {}) -> (r: {})\n", rng.below(9), types[rng.below(types.len())], types[rng.below(types.len())])),
+                1 => t.push_str(&format!("type T{} {}\n", rng.below(9), types[rng.below(types.len())])),
+                _ => t.push_str(&format!("error E{} (f: {})\n", rng.below(9), types[rng.below(types.len())])),
+            }
+        }
+        if rng.below(4) == 0 { let cut = rng.below(t.len() + 1); t.truncate(cut); }
+        if let Some(why) = run_idl(&t) {
+            return Some(json!({"kind":"idl","text":t,"why":why}));
+        }
+    }
+    None
+}
+
 struct Rng(u64);
 impl Rng {
     fn next(&mut self) -> u64 {
@@ -357,6 +420,7 @@ fn main() {
             "recv_cancel" => search_recv(seed, budget, true),
             "server" => search_server(seed, budget / 10),
             "chain" => search_chain(seed, budget / 10),
+            "idl" => search_idl(seed, budget),
             _ => panic!("unknown kind"),
         };
         match found {
@@ -390,6 +454,24 @@ fn main() {
                 std::process::exit(1);
             }
             println!("REPLAY: passes on the real code");
+        }
+        Some("idl_legal") => {
+            let t = w["text"].as_str().unwrap();
+            let n = w["name"].as_str().unwrap();
+            println!("text = {t:?}");
+            match zlink_core::idl::Interface::try_from(t).map(|i| i.name().to_string()) {
+                Ok(name) if name == n => println!("REPLAY: passes on the real code"),
+                other => { println!("legal interface text rejected or mis-named: {other:?}\nREPLAY: FAILS on the real code"); std::process::exit(1); }
+            }
+        }
+        Some("idl") => {
+            std::panic::set_hook(Box::new(|_| {}));
+            let t = w["text"].as_str().unwrap();
+            println!("text = {t:?}");
+            match run_idl(t) {
+                Some(why) => { println!("{why}\nREPLAY: FAILS on the real code"); std::process::exit(1); }
+                None => println!("REPLAY: passes on the real code"),
+            }
         }
         Some("chain") => {
             let flags: Vec<u8> = w["flags"].as_array().unwrap().iter().map(|x| x.as_u64().unwrap() as u8).collect();
